@@ -6,6 +6,8 @@
 import Gozod.Model.JsonSchema
 import Gozod.Model.JsonSchemaLazy
 import Gozod.Model.JsonSchemaRec
+import Gozod.Model.JsonSchemaRefs
+import Gozod.Gen.ToJsonCases
 namespace Gozod.Drv.C07
 open Gozod.Jsc
 
@@ -613,6 +615,55 @@ def handleBase : List String → String
     | _, _ => "bad-op"
   | _ => "bad-op"
 
+/-! ### `refs OPTS ROOT ( n I B ID O N TYPE NILT LAZY K* )*`: the reference bookkeeping of ONE real call, replayed by the
+    model (`Refs.convertTop`, the function `c07_refs_resolve` is about) on the instance graph the harness read off the live
+    schema; the `$defs` names and `$ref` targets must be those of the real document. -/
+
+/-- `isCompositeType`, from the table regenerated out of jsonschema/to.go (`compositeTypes`). -/
+def isComposite (typeName : String) : Bool :=
+  Gozod.Gen.ToJsonCases.compositeTypes.any (fun c => (reprStr c).endsWith ("." ++ typeName) || reprStr c == typeName)
+
+partial def pNats : List String → Option (List Nat × List String)
+  | ")" :: ts => some ([], ts)
+  | t :: ts => do
+      let n ← t.toNat?
+      let (ns, ts) ← pNats ts
+      pure (n :: ns, ts)
+  | [] => none
+
+partial def pNodes : List String → Option (List (Nat × Refs.Node))
+  | [] => some []
+  | "(" :: "n" :: i :: b :: id :: o :: n :: ty :: nt :: lz :: ts => do
+      let i ← i.toNat?
+      let b ← b.toNat?
+      let (kids, ts) ← pNats ts
+      let rest ← pNodes ts
+      let idv := if id.startsWith "i:" then some (id.drop 2).toString else none
+      pure ((i, { base := b, id := idv, optional := o == "1", nilable := n == "1", composite := isComposite ty,
+                  nilType := nt == "1", isLazy := lz == "1", kids := kids }) :: rest)
+  | _ => none
+
+def graphOf (nodes : List (Nat × Refs.Node)) : Refs.Graph :=
+  fun n => match nodes.lookup n with
+    | some nd => nd
+    | none => { base := n }
+
+def sortDedup (xs : List String) : List String :=
+  (sortBy (fun a b => decide (a < b)) xs).foldr (fun x acc => match acc with
+    | y :: _ => if x == y then acc else x :: acc
+    | [] => [x]) []
+
+def handleRefs : List String → Option String
+  | "refs" :: o :: root :: ts =>
+    match pOpts o, root.toNat?, pNodes ts with
+    | some (o, _), some root, some nodes =>
+      let ro : Refs.Opts := { reusedRef := o.reusedRef, cyclesThrow := o.cyclesThrow }
+      match Refs.convertTop (graphOf nodes) ro (2 * nodes.length + 10) root with
+      | some st => some ("defs=" ++ ",".intercalate (sortDedup st.defs) ++ ";refs=" ++ ",".intercalate (sortDedup st.out))
+      | none => some "error"
+    | _, _, _ => some "bad-op"
+  | _ => none
+
 /-- `( cyc NAME )`: a self-referential schema (the Lazy resolves to a schema that holds the Lazy / FromStruct of a
     self-referential struct type).  The statement asks for a document: finite, compiling, references resolving — judged on the
     implementation alone (the harness converts it in a process of its own; `crash` = that process died). -/
@@ -621,6 +672,9 @@ def handleCyc : List String → Option String
   | _ => none
 
 def handle (ts : List String) : String :=
+  match handleRefs ts with
+  | some r => r
+  | none =>
   match handleCyc ts with
   | some r => r
   | none =>
